@@ -250,6 +250,14 @@ void vf::run_case(Src &s, Ctx &c)
     o.onlySampleableGoal = true;
     o.singleStart = std::string(pi.name) == "LBTRRT" || std::string(pi.name) == "LazyLBTRRT";
     std::shared_ptr<Problem> P = genProblem(s, o);
+    // Two fifths of the cases (decided by the already decoded seed; no saved case has such a seed) make the goal region large, 1.0 .. 2.8 in a
+    // 10 x 10 box: planners that turn samples inside the region into goal vertices then hold several goals of different cost at once.
+    if (seed % 5 >= 3)
+    {
+        P->threshold = 1.0 + 0.3 * (double)(seed % 7);
+        P->pdef->getGoal()->as<ob::GoalRegion>()->setThreshold(P->threshold);
+        c.count("goal:large-region");
+    }
     ObjSpec os{};
     os.kind = (int)s.weighted({6, 3, 2, 2, 2});
     os.a = s.real(0.2, 3);
@@ -400,7 +408,7 @@ void vf::run_case(Src &s, Ctx &c)
     // epilogue (decoded last, so that saved cases - which end before it - keep their meaning): a solve with a budget from the top of the range,
     // the caller drops the stored solutions, a short continued solve. A planner that keeps an incumbent must not come back with something
     // worse than it had reported (the repository's own optimisation tests clear the solution paths between rounds).
-    if (k == solves && !notResumable && s.chance(80))
+    if (k == solves && !notResumable && s.chance(140))
     {
         c.count("history:epilogue(long solve, clearSolutionPaths, short solve)");
         if (oneSolve(k, (long)(s.real(1500, 3000) * pi.budgetScale), false))
